@@ -29,6 +29,7 @@ func init() {
 		func(t *vcTrial) { vcRunC07(t, vc07Cfg{Kind: "fdconn", Reads: 3, Force: "timeout", TimeoutKind: "timeout"}) },
 		func(t *vcTrial) { vcRunC07(t, vc07Cfg{Kind: "fdconn", Reads: 2, Force: "timeout", TimeoutKind: "deadline"}) },
 		func(t *vcTrial) { vcRunC07(t, vc07Cfg{Kind: "dial", Reads: 4, Force: "timeout", TimeoutKind: "timeout"}) },
+		func(t *vcTrial) { vcRunC07(t, vc07Cfg{Kind: "accept-preptimeout", Reads: 2}) },
 		func(t *vcTrial) { vcRunC07(t, vc07Cfg{Kind: "accept-hupwait", Reads: 2, Force: "peerclose", TimeoutKind: "none"}) },
 		func(t *vcTrial) { vcRunC07(t, vc07Cfg{Kind: "accept-hupwait", Reads: 3, Force: "peerclose", TimeoutKind: "timeout"}) },
 		func(t *vcTrial) {
@@ -58,7 +59,7 @@ func vcScenC07(t *vcTrial) {
 		vcRunC07TimerTie(t, r.rng(100, 400))
 		return
 	}
-	cfg := vc07Cfg{Kind: []string{"dial", "accept", "fdconn", "dial", "accept-hupwait"}[r.intn(5)], Reads: r.rng(1, 6)}
+	cfg := vc07Cfg{Kind: []string{"dial", "accept", "fdconn", "dial", "accept-hupwait", "accept-preptimeout"}[r.intn(6)], Reads: r.rng(1, 6)}
 	if cfg.Kind == "accept-hupwait" {
 		cfg.Force = []string{"peerclose", "", ""}[r.intn(3)]
 	}
@@ -72,6 +73,8 @@ func vcScenC07(t *vcTrial) {
 	}
 	vcRunC07(t, cfg)
 }
+
+const vc07PrepTimeout = 60 * time.Millisecond
 
 // vc07Peer is the raw sending side.
 type vc07Peer struct {
@@ -98,8 +101,15 @@ func vcMakeReaderConn(t *vcTrial, kind string) (Connection, *vc07Peer, func()) {
 		var once sync.Once
 		cl := func() { once.Do(func() { syscall.Close(pfd) }) }
 		return c, &vc07Peer{w: vcFDWriter(pfd), close: cl, rst: cl}, func() { c.Close(); cl() }
-	case "accept", "accept-hupwait":
+	case "accept", "accept-hupwait", "accept-preptimeout":
 		so := vcSrvOpts{Network: "tcp", NCloseCb: 0, NoOnRequest: true}
+		if kind == "accept-preptimeout" {
+			// the read timeout of this connection is set by the user in OnPrepare (per-connection
+			// policy); the reads below use it as it is
+			so.NoDefaultTimeouts = true
+			so.Extra = append(so.Extra, WithReadTimeout(20*time.Second)) // the loop-wide default, overridden per connection
+			so.OnPrepare = func(rec *vcConnRec) { rec.Conn.SetReadTimeout(vc07PrepTimeout) }
+		}
 		if kind == "accept-hupwait" {
 			// OnDisconnect waits until the reader that was blocked at the time of the peer's close has
 			// been released: the wake-up of blocked calls must not depend on this callback returning
@@ -264,6 +274,10 @@ func vcRunC07(t *vcTrial, cfg vc07Cfg) {
 		d := time.Duration(r.rng(1, 25)) * time.Millisecond
 		if class == "data" && tk != "none" && r.chance(60) {
 			d = time.Duration(r.rng(30, 200)) * time.Millisecond // comfortably later than the data
+		}
+		if cfg.Kind == "accept-preptimeout" && i == 0 {
+			// first read: no data, and the timeout that OnPrepare set is what must end it
+			tk, class, d = "inherit", "timeout", vc07PrepTimeout
 		}
 		switch tk {
 		case "none":
@@ -511,7 +525,7 @@ func vcRunC07(t *vcTrial, cfg vc07Cfg) {
 				t.Violate("C07", "timeout_with_data", "%s returned ErrReadTimeout although %d bytes were already buffered at call time", desc, res.lenAt)
 			}
 			// lower bounds only: load can delay a timeout, never advance it
-			if tk == "timeout" && res.elapsed < d {
+			if (tk == "timeout" || tk == "inherit") && res.elapsed < d {
 				t.Violate("C07", "early_timeout", "%s returned ErrReadTimeout after %v, before its %v elapsed (stale timer tick?)", desc, res.elapsed, d)
 			}
 			if tk == "deadline" && res.retAt.Before(res.dlAbs.Add(-time.Millisecond)) {
